@@ -36,6 +36,31 @@ pub use scalar::Scalar;
 
 use crate::constant_time::CtZero;
 
+/// verification hooks: public wrappers of the crate-private arithmetic used by the
+/// X25519 ladders (small-constant multiplication), by signing (`a * b + c mod L`)
+/// and by the scalar multiplications (signed digit recodings)
+#[cfg(cryptoxide_verif)]
+#[allow(missing_docs)]
+pub mod verif {
+    use super::{Fe, Scalar};
+
+    pub fn fe_mul_small_121666(a: &Fe) -> Fe {
+        a.mul_small::<121666>()
+    }
+    pub fn fe_mul_small_9(a: &Fe) -> Fe {
+        a.mul_small::<9>()
+    }
+    pub fn scalar_muladd(a: &Scalar, b: &Scalar, c: &Scalar) -> Scalar {
+        super::scalar::muladd(a, b, c)
+    }
+    pub fn scalar_nibbles(a: &Scalar) -> [i8; 64] {
+        a.nibbles()
+    }
+    pub fn scalar_slide(a: &Scalar) -> [i8; 256] {
+        a.slide()
+    }
+}
+
 /// Computes a shared secret from the curve25519 private key (n) and public
 /// key (p)
 pub fn curve25519(n: &[u8; 32], p: &[u8; 32]) -> [u8; 32] {
